@@ -6,6 +6,7 @@ import (
 	"encoding/binary"
 	"encoding/json"
 	"fmt"
+	"io"
 	"os"
 	"runtime"
 	"sort"
@@ -99,6 +100,12 @@ type scriptedRand struct {
 	forceExt  int
 	wordReads int
 	extReads  int
+
+	// allowDry: content reads have a third answer, "the source runs dry here"
+	// (half of the request, then io.EOF for ever): only for generators that
+	// return errors instead of failing the test
+	allowDry bool
+	dry      bool
 }
 
 // shiftRight shifts the big-endian number in p right by n bits.
@@ -131,6 +138,11 @@ func classify() string {
 				class = "index"
 			}
 		case strings.HasSuffix(fn, "io.(*LimitedReader).Read"):
+			if class == "generic" {
+				class = "content"
+			}
+		case strings.HasSuffix(fn, "testutil.UnixFSFile"):
+			// any other read made by the file generator is a read of content
 			if class == "generic" {
 				class = "content"
 			}
@@ -168,6 +180,9 @@ func (s *scriptedRand) Read(p []byte) (int, error) {
 	}
 	if len(p) == 0 {
 		return 0, nil
+	}
+	if s.dry {
+		return 0, io.EOF
 	}
 	class := classify()
 	defer func() { s.lastClass = class }()
@@ -244,7 +259,21 @@ func (s *scriptedRand) Read(p []byte) (int, error) {
 		putBE(p, opts[c])
 		s.log = append(s.log, fmt.Sprintf("ext=%d", opts[c]))
 	case "content":
-		c := s.x.Choose(2, "content")
+		menu := 2
+		if s.allowDry {
+			menu = 3
+		}
+		c := s.x.Choose(menu, "content")
+		if c == 2 {
+			// a finite random source ends inside this file's content
+			s.dry = true
+			n := len(p) / 2
+			for i := 0; i < n; i++ {
+				p[i] = byte(0xA0 + i)
+			}
+			s.log = append(s.log, fmt.Sprintf("dry-after=%d", n))
+			return n, io.EOF
+		}
 		if c == 0 {
 			for i := range p {
 				p[i] = byte(s.reads*31 + i*7 + 1)
@@ -422,6 +451,7 @@ func runGenForced(t *testing.T, g genCfg, x *xplore.Ctx, forceWord, forceExt int
 	s := store.New()
 	ls := lsOf(s)
 	rnd := &scriptedRand{x: x, forceWord: forceWord, forceExt: forceExt}
+	rnd.allowDry = g.Gen == "UnixFSFile" || (g.Gen == "UnixFSDirectory" && g.Custom)
 	pathRule, full := false, false
 	var de testutil.DirEntry
 	var err error
@@ -476,6 +506,9 @@ func runGenForced(t *testing.T, g genCfg, x *xplore.Ctx, forceWord, forceExt int
 		return "harness", "unknown generator " + g.Gen
 	}
 	if err != nil {
+		if rnd.dry {
+			return "", "" // no tree from an exhausted source: nothing was described
+		}
 		return "generator-error " + g.Gen, fmt.Sprintf("%s: %v (reads: %v)", g, err, rnd.log)
 	}
 	rb, rerr := readBack(s, de.Root, 0)
